@@ -76,36 +76,40 @@ theorem run_ran_tail (w : Wrapper) (c : List Wrapper) (h : Handler) (req : Req)
     (hr : run (w :: c) h req = .ran) : run c h req = .ran :=
   apply_ran w _ req hr
 
-/-! ## The gate decides on path, cookie class, basic class and usersExist only -/
+/-! ## The gate decides on path, cookie class, basic class, "auth required" and the token verdict only -/
 
 theorem optionalAuthW_decision (g : Handler) (req : Req) :
     optionalAuthW g req =
-      (authDecision req.path req.cookie req.basic req.usersExist).getD (g req) := by
+      (authDecision req.path req.cookie req.basic (authRequired req) req.glMode
+        (glProcessCookie req)).getD (g req) := by
   unfold optionalAuthW authDecision optionalAuthThird authenticated
   by_cases h1 : req.path = pLoginHtml
-  · by_cases h2 : (req.usersExist && req.cookie == .valid) = true <;> simp [h1, h2]
+  · by_cases h2 : (authRequired req && req.cookie == .valid) = true <;> simp [h1, h2]
   · by_cases h3 : isPublicResource req.path = true
     · simp [h1, h3]
-    · cases hu : req.usersExist
+    · cases hu : authRequired req
       · simp [h1, h3]
       · by_cases hr : req.path = pRoot ∨ req.path = pIndex <;>
-          cases hc : req.cookie <;> cases hb : req.basic <;> simp [h1, h3, hr]
+          cases hg : (glProcessCookie req || sessionOrBasic req.cookie req.basic) <;>
+          simp [h1, h3, hr, hg]
 
 /-- Two requests that differ at most in the extra headers. -/
 def sameButHeaders (a b : Req) : Prop :=
   a.path = b.path ∧ a.method = b.method ∧ a.cookie = b.cookie ∧ a.basic = b.basic ∧
   a.ctype = b.ctype ∧ a.contentLength = b.contentLength ∧ a.firstRun = b.firstRun ∧
-  a.usersExist = b.usersExist
+  a.usersExist = b.usersExist ∧ a.glMode = b.glMode ∧ a.glCookie = b.glCookie ∧
+  a.glStat = b.glStat ∧ a.now = b.now
 
 theorem apply_headers (w : Wrapper) (g : Handler) (a b : Req) (hs : sameButHeaders a b)
     (hg : g a = g b) : w.apply g a = w.apply g b := by
-  obtain ⟨h1, h2, h3, h4, h5, h6, h7, h8⟩ := hs
+  obtain ⟨h1, h2, h3, h4, h5, h6, h7, h8, h9, h10, h11, h12⟩ := hs
   cases w with
   | postInstall => simp only [Wrapper.apply, postInstallW, h1, h7, hg]
   | preInstall => simp only [Wrapper.apply, preInstallW, h7, hg]
   | optionalAuth =>
     simp only [Wrapper.apply]
-    rw [optionalAuthW_decision, optionalAuthW_decision, h1, h3, h4, h8, hg]
+    rw [optionalAuthW_decision, optionalAuthW_decision]
+    simp only [authRequired, glProcessCookie, glCheckToken, h1, h3, h4, h8, h9, h10, h11, h12, hg]
   | gzip => exact hg
   | ensure m => simp [Wrapper.apply, ensureW, ctypeOK, h2, h5, h6, hg]
 
@@ -150,18 +154,92 @@ theorem public_sub_spec (p : Bytes) (h : isPublicResource p = true) : specPublic
 
 /-! ## Authentication -/
 
-theorem auth_sub_spec (req : Req) (h : authenticated req = true) : specAuthenticated req = true := by
+/-- The code's token test implies: the value is a plain name, and the file found
+is fresh by the spec's (unwrapped) arithmetic — once the clock is past the first
+hour of 1970 (a file that cannot be read counts as date 0). -/
+theorem glCheck_sub_fresh (req : Req) (hnow : glTimeout < req.now)
+    (h : glCheckToken req = true) :
+    ∃ v, req.glCookie = some v ∧ plainName v = true ∧ tokenFresh req.now req.glStat = true := by
+  unfold glCheckToken at h
+  cases hc : req.glCookie with
+  | none => simp [hc] at h
+  | some v =>
+    simp only [hc, Bool.and_eq_true] at h
+    refine ⟨v, rfl, h.1, ?_⟩
+    have h2 := h.2
+    unfold tokenFresh
+    cases hs : req.glStat with
+    | missing => simp [hs] at h2
+    | short =>
+      simp [hs, glTimeout] at h2
+      simp [glTimeout] at hnow
+      omega
+    | date d =>
+      simp [hs] at h2 ⊢
+      have : (d + glTimeout) % 4294967296 ≤ d + glTimeout := Nat.mod_le _ _
+      omega
+
+/-- What is assumed of the file system, and only for values WITHOUT a separator:
+the OS finds under `glFilePrefix ++ v` the directory entry of exactly that name
+(`issued`: what the router issued under it); and a path that ends in a separator
+is a directory, which has no readable date.  Nothing is assumed about values
+with separators, and nothing about what else the directory holds. -/
+def nameResolves (req : Req) (issued : GLStat) : Prop :=
+  (∀ v, req.glCookie = some v → slash ∉ v → req.glStat = issued) ∧
+  (req.glCookie = some [slash] → ∀ d, req.glStat ≠ .date d)
+
+theorem plainName_cases (v : Bytes) (h : plainName v = true) :
+    (v ≠ [] ∧ slash ∉ v) ∨ v = [slash] := by
+  unfold plainName at h
+  simp only [Bool.or_eq_true, Bool.and_eq_true, bne_iff_ne, ne_eq, Bool.not_eq_true',
+    beq_iff_eq] at h
+  rcases h with ⟨h1, h2⟩ | h
+  · left
+    refine ⟨h1, fun hm => ?_⟩
+    rw [List.contains_iff_mem.mpr hm] at h2
+    cases h2
+  · right; exact h
+
+/-- The token gate opens only for a slash-free, non-empty value whose token (the
+entry of exactly that name) is fresh. -/
+theorem glCheck_by_name (req : Req) (issued : GLStat) (hfs : nameResolves req issued)
+    (hnow : glTimeout < req.now) (h : glCheckToken req = true) :
+    ∃ v, req.glCookie = some v ∧ v ≠ [] ∧ slash ∉ v ∧ tokenFresh req.now issued = true := by
+  obtain ⟨v, hv, hp, hf⟩ := glCheck_sub_fresh req hnow h
+  rcases plainName_cases v hp with ⟨hne, hns⟩ | hsl
+  · refine ⟨v, hv, hne, hns, ?_⟩
+    rw [← hfs.1 v hv hns]; exact hf
+  · subst hsl
+    exfalso
+    unfold tokenFresh at hf
+    cases hs : req.glStat with
+    | missing => simp [hs] at hf
+    | short => simp [hs] at hf
+    | date d => exact hfs.2 hv d hs
+
+theorem auth_sub_spec (req : Req) (issued : GLStat) (hfs : nameResolves req issued)
+    (hnow : glTimeout < req.now) (h : authenticated req = true) :
+    specAuthenticated req issued = true := by
   unfold authenticated at h
-  unfold specAuthenticated
-  cases hc : req.cookie <;> simp [hc] at h ⊢
-  exact h
+  unfold specAuthenticated specGLAuthenticated
+  rw [Bool.or_eq_true] at h
+  rcases h with h | h
+  · unfold glProcessCookie at h
+    simp only [Bool.and_eq_true] at h
+    obtain ⟨⟨hm, hc⟩, hk⟩ := h
+    obtain ⟨v, _, _, _, hf⟩ := glCheck_by_name req issued hfs hnow hk
+    simp [hm, hc, hf]
+  · unfold sessionOrBasic at h
+    cases hc : req.cookie <;> simp [hc] at h ⊢
+    simp [h]
 
 /-- With the gate closed, `optionalAuth` answers by itself. -/
 theorem optionalAuthW_denied (g : Handler) (req : Req)
-    (hu : req.usersExist = true) (hp : isPublicResource req.path = false)
+    (hu : authRequired req = true) (hp : isPublicResource req.path = false)
     (ha : authenticated req = false) :
     optionalAuthW g req =
-      if req.path = pRoot ∨ req.path = pIndex then .redirect .login else .forbiddenAuth := by
+      if req.path = pRoot ∨ req.path = pIndex then .redirect (loginTarget req.glMode)
+      else .forbiddenAuth := by
   have hl : req.path ≠ pLoginHtml := by
     intro he
     rw [he, loginHtml_public] at hp
@@ -183,10 +261,11 @@ theorem authFirst_mem (c : List Wrapper) (h : authFirst c = true) : .optionalAut
     | ensure m => simp [authFirst] at h
 
 theorem authFirst_denied (c : List Wrapper) (g : Handler) (req : Req)
-    (hc : authFirst c = true) (hu : req.usersExist = true) (hf : req.firstRun = false)
+    (hc : authFirst c = true) (hu : authRequired req = true) (hf : req.firstRun = false)
     (hp : isPublicResource req.path = false) (ha : authenticated req = false) :
     run c g req =
-      if req.path = pRoot ∨ req.path = pIndex then .redirect .login else .forbiddenAuth := by
+      if req.path = pRoot ∨ req.path = pIndex then .redirect (loginTarget req.glMode)
+      else .forbiddenAuth := by
   induction c with
   | nil => simp [authFirst] at hc
   | cons w c ih =>
@@ -280,15 +359,15 @@ theorem allowed_served_public (pat path : Bytes)
 
 /-! ## What `specOK` means -/
 
-theorem specOK_iff (req : Req) (d : Option Bytes) (o : Obs) :
-    specOK req d o = true ↔
-      (protectedReq req = true → allowedDenial o = true) ∧
+theorem specOK_iff (req : Req) (d : Option Bytes) (o : Obs) (issued : GLStat) :
+    specOK req d o issued = true ↔
+      (protectedReq req issued = true → allowedDenial o = true) ∧
       (o = .resp .ran → badStateChange req d = false) := by
   unfold specOK specCheck
   by_cases ho : o = .resp .ran
   · subst ho
-    cases hp : protectedReq req <;> cases hb : badStateChange req d <;>
+    cases hp : protectedReq req issued <;> cases hb : badStateChange req d <;>
       simp [allowedDenial, hp, hb]
-  · cases hp : protectedReq req <;> cases ha : allowedDenial o <;> simp [hp, ha, ho]
+  · cases hp : protectedReq req issued <;> cases ha : allowedDenial o <;> simp [hp, ha, ho]
 
 end AGH.C11
